@@ -156,7 +156,11 @@ func (r *run) compareCBs() {
 			return
 		}
 		if a.old != r.ptrOf(e.old) || a.new != r.ptrOf(e.new) {
-			r.viol(tagFor(e.who, e.errKind, a.err), "callback #%d (%s): called with old=%s new=%s, the model expects old=%s new=%s", i, a.who, r.whatPtr(a.old), r.whatPtr(a.new), r.what(e.old), r.what(e.new))
+			tg := tagFor(e.who, e.errKind, a.err)
+			if e.who != "onerr" && (r.isRejected(a.new) || r.isRejected(a.old)) {
+				tg += ",C04" // a config that never passed Verify reached a new-config callback
+			}
+			r.viol(tg, "callback #%d (%s): called with old=%s new=%s, the model expects old=%s new=%s", i, a.who, r.whatPtr(a.old), r.whatPtr(a.new), r.what(e.old), r.what(e.new))
 			return
 		}
 		if e.who == "onerr" {
@@ -194,6 +198,18 @@ func (r *run) compareCBs() {
 		return
 	}
 	r.res.Calls = len(log)
+}
+
+func (r *run) isRejected(p *SimCfg) bool {
+	if p == nil {
+		return false
+	}
+	for _, c := range r.cfgs {
+		if c.ptr == p {
+			return c.what == "rejected"
+		}
+	}
+	return false
 }
 
 func (r *run) what(id int) string {
@@ -581,8 +597,14 @@ func (r *run) stepReport(op *Op) {
 			}
 		}
 	}
-	// the view right after the report returned
+	// the view right after the report returned; after a rejected update a
+	// changed view (pointer OR contents) is a violation of "rejected updates
+	// change nothing" as well
+	if p.blockErr == "invalid" {
+		r.contentTag = "C04,C05"
+	}
 	r.checkView("C07", op.Block && err == nil)
+	r.contentTag = ""
 	r.compareCBs()
 	r.recordToken()
 }
@@ -626,7 +648,11 @@ func (r *run) checkView(tag string, strict bool) {
 		return
 	}
 	if df := shape.Diff(reflect.ValueOf(want.val).Elem(), reflect.ValueOf(cfg).Elem()); df != "" {
-		r.viol("C05", "the current view differs from the reference stack of each source's latest value at %s (want vs got)", df)
+		tag := "C05"
+		if r.contentTag != "" {
+			tag = r.contentTag
+		}
+		r.viol(tag, "the current view differs from the reference stack of each source's latest value (or the last version that verified) at %s (want vs got)", df)
 	}
 }
 
